@@ -235,6 +235,44 @@ class coq_lock:
         self.f.close()
 
 
+def tree_reductions(t):
+    """one-step reductions of a content tree: drop one child anywhere, drop one attribute, hoist a child's children"""
+    if t[0] != "tag":
+        return
+    ns, name, attrs, kids = t[1], t[2], t[3], t[4]
+    for i in range(len(kids)):
+        yield ("tag", ns, name, attrs, kids[:i] + kids[i + 1:])
+    for i in range(len(attrs)):
+        yield ("tag", ns, name, attrs[:i] + attrs[i + 1:], kids)
+    for i, k in enumerate(kids):
+        if k[0] == "tag":
+            yield ("tag", ns, name, attrs, kids[:i] + list(k[4]) + kids[i + 1:])
+        for r in tree_reductions(k):
+            yield ("tag", ns, name, attrs, kids[:i] + [r] + kids[i + 1:])
+        if k[0] == "text" and len(k[1]) > 1:
+            yield ("tag", ns, name, attrs, kids[:i] + [("text", k[1][:len(k[1]) // 2])] + kids[i + 1:])
+            yield ("tag", ns, name, attrs, kids[:i] + [("text", k[1][len(k[1]) // 2:])] + kids[i + 1:])
+
+
+def shrink(case, what, reductions, failing_whats, rounds=10, width=60):
+    """greedy batch shrinking.  reductions(case) yields smaller cases; failing_whats(cases) -> list of sets of
+    failure descriptions, evaluated in one batch; keeps a reduction that still fails with `what`."""
+    for _ in range(rounds):
+        cands = list(reductions(case))[:width]
+        if not cands:
+            break
+        res = failing_whats(cands)
+        nxt = None
+        for c, w in zip(cands, res):
+            if what in w:
+                nxt = c
+                break
+        if nxt is None:
+            break
+        case = nxt
+    return case
+
+
 def locate_lemma(path, line):
     try:
         with open(path) as f:
